@@ -284,6 +284,7 @@ type propInfo struct {
 	RaceMode                bool
 	RaceCompanion           string
 	Companions              []string
+	EvalCounter             string
 }
 
 type failure struct {
@@ -978,28 +979,36 @@ func writeEvidence(id, tier string, seed uint64, p propInfo, ag *agg, wall time.
 	if len(samples) == 0 {
 		samples = append(samples, "no sample recorded")
 	}
+	evaluations := ag.runs
+	if p.EvalCounter != "" {
+		if n, ok := ag.st.Counters[p.EvalCounter]; ok {
+			evaluations = int(n) // the cases of this check (several per run)
+		}
+	}
 	cov := map[string]interface{}{
-		"evaluations":               ag.runs,
-		"distinct_nontrivial":       distinct["nontrivial"],
-		"rule":                      p.Rule,
-		"samples":                   samples,
-		"exhaustive":                false,
-		"runs_per_hour":             int(float64(ag.runs) / wall.Hours()),
-		"simulated_time_s":          float64(ag.st.SimTimeNs) / 1e9,
-		"scheduling_steps":          ag.st.Steps,
-		"decisions_with_ge2_ready":  ag.st.Decisions2,
-		"distinct_sets":             distinct,
-		"faults_fired":              faults,
-		"probes":                    probes,
-		"counters":                  other,
-		"verdicts":                  ag.st.Verdicts,
-		"inconclusive_runs":         ag.st.Inconcl,
+		"evaluations":                evaluations,
+		"runs":                       ag.runs,
+		"distinct_nontrivial":        distinct["nontrivial"],
+		"rule":                       p.Rule,
+		"samples":                    samples,
+		"exhaustive":                 false,
+		"runs_per_hour":              int(float64(ag.runs) / wall.Hours()),
+		"evaluations_per_hour":       int(float64(evaluations) / wall.Hours()),
+		"simulated_time_s":           float64(ag.st.SimTimeNs) / 1e9,
+		"scheduling_steps":           ag.st.Steps,
+		"decisions_with_ge2_ready":   ag.st.Decisions2,
+		"distinct_sets":              distinct,
+		"faults_fired":               faults,
+		"probes":                     probes,
+		"counters":                   other,
+		"verdicts":                   ag.st.Verdicts,
+		"inconclusive_runs":          ag.st.Inconcl,
 		"runs_skipped_by_wall_clock": skipped,
-		"components_real":           p.Real,
-		"components_stubbed":        p.Stub,
-		"seeds":                     fmt.Sprintf("base seed %d, run i uses mix(seed,i); replay files carry the full choice lists", seed),
-		"failing_classes":           ag.failCount,
-		"batches":                   batches,
+		"components_real":            p.Real,
+		"components_stubbed":         p.Stub,
+		"seeds":                      fmt.Sprintf("base seed %d, run i uses mix(seed,i); replay files carry the full choice lists", seed),
+		"failing_classes":            ag.failCount,
+		"batches":                    batches,
 	}
 	ev := map[string]interface{}{
 		"property_id": id,
